@@ -131,7 +131,7 @@ func decodeBE(bs []byte, signed bool) *big.Int {
 func valuesLeg(e *env) {
 	nrand := 12
 	if e.thorough {
-		nrand = 400
+		nrand = 200
 	}
 	var scriptExprs []string
 	var scriptWant []string
